@@ -102,7 +102,9 @@ claim('C10',
       COMMON_NOTE, 'Coq proof (induction over declarations; seen-table invariants; error-path lemmas) + differential with violation-injecting generator', 'DESIGN.md §5 C10')
 claim('C11',
       'Coq theorem: a TableConflict of the model names a state of the machine, two items of it demanding different actions on one lookahead, '
-      'and attaches the given file and machine. That the machine is the LALR(1) automaton is decided per grammar against the brute-force reference.',
+      'and attaches the given file and machine; and the machine the generator builds is the LALR(1) automaton in the least-fixpoint sense: closed '
+      'item sets, one state per LR(0) core, deterministic complete transitions, every item derivable (lookaheads least). Equivalence with the '
+      'textbook canonical-LR(1)-merge definition is decided per grammar against the brute-force reference.',
       COMMON_NOTE, 'Coq proof (builder-table invariant) + differential + brute-force LALR(1) isomorphism', 'DESIGN.md §5 C11')
 claim('C12',
       'Coq theorems: attributes are emitted verbatim, one per line, immediately before their type definition. Byte-exactness and "nowhere else" '
